@@ -18,7 +18,8 @@ CONSTANTS
     RichSel,      \* subset of {"data", "reply", "modes", "shapes"}: which pools are rich although Rich = FALSE
     Script,       \* <<>> (free environment) or a sequence of sets of event kinds: step k may only take an event whose
                   \* kind is in Script[k] (straight-line histories that enumerate the rich text pools exhaustively)
-    EmitMod       \* print every EmitMod-th behaviour (1 = all, 0 = none)
+    EmitMod,      \* print every EmitMod-th behaviour (1 = all, 0 = none)
+    SimDepth      \* simulation mode: length at which a behaviour is printed (once)
 
 VARIABLES
     cst,          \* contract state
@@ -167,8 +168,7 @@ Emit == \/ EmitMod = 0
         \/ PrintT("@@E" \o ToJson(hist'))
 
 \* simulation mode: print the behaviour once it has reached the requested length
-SimDepth == 40
-SimEmit == Len(hist) < SimDepth \/ PrintT("@@E" \o ToJson(hist))
+SimEmit == Len(hist) # SimDepth \/ PrintT("@@E" \o ToJson(hist))
 
 \* contract conjuncts, one invariant each so that TLC names the property
 P01_once    == "P01_once" \notin cviol
